@@ -235,6 +235,13 @@ func (r *NatRegistry) Install() {
 		return s
 	})
 }
+
+// SetOnNew installs (or removes) the per-socket configuration callback.
+func (r *NatRegistry) SetOnNew(f func(*NatSock)) {
+	r.mu.Lock()
+	r.OnNew = f
+	r.mu.Unlock()
+}
 func (r *NatRegistry) Uninstall() { service.VerifSetPacketConnWrapper(nil) }
 func (r *NatRegistry) All() []*NatSock {
 	r.mu.Lock()
